@@ -692,7 +692,7 @@ fn parse_after_attr(input: Span<'_>) -> IResult<Span<'_>, (ParseEvents<'_>, Stat
         }),
         map(
             peek(alt((
-                recognize(alt((separator, char_str::one_of(")}")))),
+                recognize(alt((separator, char_str::one_of(")}:")))),
                 char_str::line_ending,
             ))),
             |_| {
